@@ -174,6 +174,13 @@ def C06(V, tier):
 
 def C02(V, tier):
     wd = workdir("C02")
+    # M: the remote path (shared multiplexer / TCP / demultiplexer with blocking forward)
+    for cfg in (["Transport_quick"] if tier == "quick" else ["Transport_quick", "Transport_thorough", "Transport_wide"]):
+        r = tlc_check(f"{SPEC}/sys/Transport.tla", f"{SPEC}/mc/{cfg}.cfg", wd, cfg, workers=8, timeout=3000)
+        if not r["ok"]:
+            raise ToolError(f"model check {cfg}: {r['invariant_violated']} fails on the MODEL")
+        require_coverage(r, ["Produce", "MuxWrite", "DemuxRead", "DemuxFwd", "Consume"], cfg)
+        V.add_model(r, cfg)
     rng = random.Random(seed())
     n = 40 if tier == "quick" else 400
     progs = _programs(n, seed() + 29, "C02", max_ops=5 if tier == "quick" else 8, input_max=120)
